@@ -83,6 +83,7 @@ def placeAll : QState α → List (Nat × Option α) → Placed α
 inductive Event (α : Type) where
   | batch (items : List (Nat × Option α))
   | done (readerErr : Bool)
+  deriving DecidableEq, Repr
 
 inductive Result (α : Type) where
   | stopped (out : List α) (unconsumed : List (Event α))   -- `break produceLoop`, `Run` returns nil
@@ -90,6 +91,7 @@ inductive Result (α : Type) where
   | parseError (line : Nat)
   | readerError
   | panic
+  deriving DecidableEq, Repr
 
 /-- `produceLoop`; `linesRead` is the reader's final count (read only after `done` was received) -/
 def consume (linesRead : Nat) : QState α → Bool → List (Event α) → Result α
